@@ -343,13 +343,15 @@ def run_case(case: dict) -> dict:
                 fn = res.get_metadata().filename
                 p = "A.zip!/" + ("dir/" + fname if fn == fname else fn) if fn in (fname, "before.txt", "after.txt") else None
                 probes["entry_archive"] = 1
+                if p is None and case["route"].lower() in ARCHIVE_ROUTES:
+                    p = SKIP_PATH  # a member that is itself an archive: its own members are labelled by the archive layer
                 if p is None:
                     viol.append({"class": "file_metadata_wrong", "sig": f"{type(res).__name__}|archive_member_filename", "detail": f"{where}: filename {fn!r} is none of the members"})
                     continue
             elif entry == "attachment":
                 p = fname
                 probes["entry_attachment"] = 1
-            if case["route"].lower() in ARCHIVE_ROUTES and entry in ("direct", "read_file", "attachment"):
+            if case["route"].lower() in ARCHIVE_ROUTES:
                 p = SKIP_PATH  # results of an archive are its members: their labels are C10's business
             if p is None:
                 probes["path_none"] = 1
